@@ -111,7 +111,7 @@ CLAIMED = {
                 technique="machine-checked proof in Coq (invariant of the composition posting observer + C08 queue transition system + task body, for every interleaving of emitter, worker and unsubscriber; completeness at quiescence) + correspondence under a deterministic scheduling runtime (script oracle, thread affinity and mutual exclusion on every observed schedule; implementation log set within the model's exhaustively explored log set)",
                 text="Theorems C09_observe_on_prefix (at every moment the subscriber has received events 0..m-1 of the source in order, each once; tasks run one at a time on the worker; posted = started ++ discarded ++ queued), "
                      "C09_observe_on_complete (without unsubscribe, at quiescence every event has been delivered, terminal last: the abort only follows the delivered terminal), C09_nothing_after_close / C09_unsubscribe_closes "
-                     "(nothing is delivered once unsubscribe has run). Partial: subscribe_on, stacking and positions inside a pipeline are decided by the oracle on the implementation (the theorem covers one observe_on stage); thread identity is read off the runtime. "
+                     "(nothing is delivered once unsubscribe has run); C09_subscribe_on_prefix / _complete / _nothing_after_close: the same for subscribe_on (one posted task inside which a synchronous source emits everything, on the worker). Partial: stacking and positions inside a pipeline are decided by the oracle on the implementation (each theorem covers one stage); thread identity is read off the runtime. "
                      "Tie: observe_on at every position of short pipelines and stacked twice over a hot source fed by an emitting thread, subscribe_on likewise over cold sources, with and without a concurrent unsubscribe, "
                      "one Observable value subscribed twice (concurrently / again after the first subscription ended), DFS / random / PCT schedules, spurious wake-ups."),
     "C11": dict(engine="coq-conc", design="DESIGN.md 6 C11",
